@@ -346,6 +346,18 @@ fn spawn_async_ao_list_in_task'''),
         ('digit-equal-radix-accepted', PA, 'if digit_val >= radix {', 'if digit_val > radix {'),
         ('base-65-accepted', PA, 'if !(2..=64).contains(&radix) {', 'if !(2..=65).contains(&radix) {'),
     ],
+    'U7': [
+        ('negative-length-is-a-count-again', 'brush-core/src/expansion.rs', 'let end_offset = expanded_parameter_len.saturating_add(expanded_length);\n                        if expanded_parameter.from_array', 'let end_offset = expanded_offset.saturating_add(expanded_parameter_len.saturating_add(expanded_length));\n                        if expanded_parameter.from_array'),
+        ('negative-length-error-check-dropped', 'brush-core/src/expansion.rs', 'if expanded_parameter.from_array || end_offset < expanded_offset {', 'if expanded_parameter.from_array {'),
+        ('array-negative-length-allowed', 'brush-core/src/expansion.rs', 'if expanded_parameter.from_array || end_offset < expanded_offset {', 'if end_offset < expanded_offset {'),
+        ('offset-not-clamped', 'brush-core/src/expansion.rs', 'let expanded_offset = min(expanded_offset, expanded_parameter_len);', 'let expanded_offset = expanded_offset;'),
+        ('too-negative-offset-starts-at-zero', 'brush-core/src/expansion.rs', '''                    if expanded_offset < 0 {
+                        expanded_offset = expanded_parameter_len;
+                    }''', '''                    if expanded_offset < 0 {
+                        expanded_offset = 0;
+                    }'''),
+        ('length-not-clipped', 'brush-core/src/expansion.rs', 'min(expanded_length, expanded_parameter_len - expanded_offset);', 'expanded_length;'),
+    ],
     'U8': [
         ('subscript-relative-to-max-key-not-past-it', 'brush-core/src/variables.rs', 'Some((max_key, _)) => max_key.wrapping_add(1),', 'Some((max_key, _)) => *max_key,'),
         ('negative-subscript-never-errors', 'brush-core/src/variables.rs', '''        if index_value < 0 {
